@@ -190,6 +190,8 @@ P['C16'] = dict(
     dict(name='H16A', src='C16_density.cpp', covers=['grid built', 'end'], defines={'VCAP': 8, 'H16A': None, 'NREG': 2}, cfg=dict(fp='havoc'), split=3, ir_srcs=ALL_IR, native_srcs=ALL_IR, native_flags=['-llemon']),
     dict(name='H16B', src='C16_density.cpp', covers=['built', 'end'], defines={'VCAP': 8, 'H16B': None, 'NOPS': 3}, cfg=dict(fp='havoc'), ir_srcs=ALL_IR, native_srcs=ALL_IR, native_flags=['-llemon'],
          thorough=dict(defines={'NOPS': 4})),
+    dict(name='H16C', src='C16_density.cpp', tiers=('thorough',), covers=['built'], defines={'VCAP': 8, 'H16C': None}, cfg=dict(fp='havoc', time_budget=200), split=5, ir_srcs=ALL_IR, native_srcs=ALL_IR, native_flags=['-llemon'],
+         thorough=dict(cfg=dict(time_budget=600))),
   ])
 
 P['C17'] = dict(
@@ -205,13 +207,14 @@ P['C17'] = dict(
 P['C03'] = dict(
   design_ref='DESIGN.md section 3 C03',
   level_text='Write-protection based frame check, executed by the solver-backed engine on the real entry points: (G) Circuit::placeGlobal end to end on a tiny circuit (Eigen conjugate gradient by contract, every float value unconstrained): position/orientation of the fixed cell, all orientations, sizes, flags, polarities, nets, pin offsets, weights and rows are write-protected for the whole call - any store on any path is a violation, and the values are compared at the public getters afterwards; (L) Circuit::legalize (C01 harness with a fixed cell): sizes, flags, polarities, nets, rows and the fixed cell compared before/after on returning and throwing paths; (D) placeDetailed on returning and throwing paths (C10 harness).',
-  text=dict(bounds=dict(quick='G: 2 movable + 1 fixed cell (obstruction flag enumerated), 4 rows, 2 nets, position of the fixed cell symbolic, 1 global placement step (exploration of the float-comparison outcomes cut at 60 s per job: reported as bound hits); L: 1 movable + 1 fixed cell; D: 2 movable cells', thorough='G: 2 steps'),
+  text=dict(bounds=dict(quick='G: 2 movable + 1 fixed cell (obstruction flag enumerated), 4 rows, 2 nets, position of the fixed cell symbolic, 1 global placement step (exploration of the float-comparison outcomes cut at 60 s per job: reported as bound hits); L: 1 movable + 1 fixed cell; O: 5 cells with fixed cells interleaved in index order (two layouts), legalize and placeDetailed; D: 2 movable cells', thorough='G: 2 steps'),
             outside='more steps of global placement; larger circuits'),
   assumptions=STD_ASSUME + [BOOST_ASSUME, EIGEN_ASSUME, 'all floating point values unconstrained (FP havoc): the frame condition must hold whatever the numbers are'],
   harnesses=[
     dict(name='H03G', src='C03_global.cpp', covers=['placeGlobal ended', 'end'], defines={'VCAP': 24, 'MAXSTEPS': 1}, cfg=dict(fp='havoc', time_budget=40), split=4, ir_srcs=ALL_IR, native_srcs=ALL_IR, native_flags=['-llemon'],
          thorough=dict(defines={'MAXSTEPS': 2}, cfg=dict(time_budget=900))),
     dict(name='H03L', src='C01_legalize.cpp', covers=['legalize ended', 'end'], defines=dict(C01_BASE, NC=1, NFIXED=1, YCHOICE=None, WCHOICE=None, POLCHOICES=2, TALLCHOICES=2, VCAP=10), cfg=dict(fp='havoc', time_budget=100), split=3, ir_srcs=ALL_IR, native_srcs=ALL_IR, native_flags=['-llemon']),
+    dict(name='H03O', src='C03_order.cpp', covers=['end'], defines={'VCAP': 10}, cfg=dict(fp='havoc', time_budget=100), split=2, ir_srcs=ALL_IR, native_srcs=ALL_IR, native_flags=['-llemon']),
     dict(name='H03D', src='C10_busy.cpp', covers=['placement call ended', 'end'], defines={'VCAP': 8}, cfg=dict(fp='havoc'), ir_srcs=ALL_IR, native_srcs=ALL_IR, native_flags=['-llemon']),
   ])
 
@@ -230,7 +233,7 @@ P['C08'] = dict(
 P['C06'] = dict(
   design_ref='DESIGN.md section 3 C06',
   level_text='The conjugate-gradient solve is Eigen (environment contract: finite values). Decided on the real code: (E) Circuit::placeGlobal end to end on a tiny circuit with every float value unconstrained: it completes without raising an error on every explored outcome of the float comparisons, issues lower-bound and upper-bound callbacks, and no assert/contract/UB of the integer skeleton fires; (C) blendPlacement + GlobalPlacer::exportPlacement with symbolic coordinates up to 8e6: exact at blending 0 and 1, equal to (1-w)LB + w UB up to float rounding otherwise, exported integer coordinate = centre minus half size, rounded, and the float-to-int conversion cannot overflow (linear float error model).',
-  text=dict(bounds=dict(quick='E: 2 movable + 1 fixed cell, 4 rows, 1 step; C: 1 cell, blending in {0, 1, 0.99, 0.5}, |coordinates| <= 8e6, sizes <= 4096', thorough='E: 2 steps'),
+  text=dict(bounds=dict(quick='E: 2 movable + 1 fixed cell, 4 rows, 1 step; C: 1 cell, blending in {0, 1, 0.99, 0.5, 1.5, -0.5}, |coordinates| <= 8e6, sizes <= 4096', thorough='E: 2 steps'),
             outside='"every upper-bound coordinate inside the placement area" and "no NaN": need the float values of spreadCells / the CG solve (declined: float kernel not closed by the error model, Eigen internals); more cells and steps'),
   assumptions=STD_ASSUME + [EIGEN_ASSUME, BOOST_ASSUME],
   harnesses=[
@@ -251,6 +254,7 @@ P['C07'] = dict(
     dict(name='H07R', src='C11_idempotent.cpp', covers=['end'], defines={'VCAP': 8, 'H11B': None, 'NC': 2}, cfg=dict(fp='havoc'), split=2, ir_srcs=ALL_IR, native_srcs=ALL_IR, native_flags=['-llemon']),
     dict(name='H07D', src='C10_busy.cpp', covers=['placement call ended', 'end'], defines={'VCAP': 8, 'NDEBUG': None}, cfg=dict(fp='havoc'), ir_srcs=ALL_IR, native_srcs=ALL_IR, native_flags=['-llemon']),
     dict(name='H07G', src='C03_global.cpp', covers=['placeGlobal ended', 'end'], defines={'VCAP': 24, 'MAXSTEPS': 1, 'NDEBUG': None}, cfg=dict(fp='havoc', time_budget=40), split=4, ir_srcs=ALL_IR, native_srcs=ALL_IR, native_flags=['-llemon']),
+    dict(name='H07P', src='C03_global.cpp', covers=['placeGlobal ended'], defines={'VCAP': 24, 'MAXSTEPS': 1, 'PSETS': 3}, cfg=dict(fp='havoc', time_budget=40), split=3, ir_srcs=ALL_IR, native_srcs=ALL_IR, native_flags=['-llemon']),
     dict(name='H07L', src='C01_legalize.cpp', covers=['legalize ended', 'end'], defines=dict(C01_BASE, NC=1, YCHOICE=None, POLCHOICES=2, NDEBUG=None), cfg=dict(fp='havoc'), ir_srcs=ALL_IR, native_srcs=ALL_IR, native_flags=['-llemon']),
   ])
 
